@@ -44,6 +44,17 @@ var c19Sentinel = errors.New("c19 sentinel panic")
 
 func c19TypeOf[T any]() reflect.Type { return reflect.TypeOf((*T)(nil)).Elem() }
 
+// same-named local types: reflect renders both as "props.T", yet they are different types
+var c19LocalT1Type, c19LocalT1 = func() (reflect.Type, func(int) any) {
+	type T struct{ A int }
+	return reflect.TypeOf(T{}), func(i int) any { return T{A: i} }
+}()
+
+var c19LocalT2Type, c19LocalT2 = func() (reflect.Type, func(int) any) {
+	type T struct{ B string }
+	return reflect.TypeOf(T{}), func(i int) any { return T{B: fmt.Sprint(i)} }
+}()
+
 var c19Types = func() []c19Type {
 	small := func(t *rapid.T, l string) int { return rapid.IntRange(-3, 3).Draw(t, l) }
 	return []c19Type{
@@ -133,6 +144,9 @@ var c19Types = func() []c19Type {
 			}
 			return c19StrImpl("z")
 		}},
+		// two distinct types whose names (reflect.Type.String) are identical: declared in different function scopes
+		{"local T (1)", c19LocalT1Type, func(t *rapid.T, l string) any { return c19LocalT1(small(t, l)) }},
+		{"local T (2)", c19LocalT2Type, func(t *rapid.T, l string) any { return c19LocalT2(small(t, l)) }},
 		// extra value-only types used as perturbations (never parameters)
 		{"strimpl", c19TypeOf[c19StrImpl](), func(t *rapid.T, l string) any { return c19StrImpl("q") }},
 		{"*err", c19TypeOf[*c19Err](), func(t *rapid.T, l string) any {
@@ -144,7 +158,7 @@ var c19Types = func() []c19Type {
 	}
 }()
 
-const c19ParamTypes = 19 // the first 19 entries may be used as parameter / result types
+const c19ParamTypes = 21 // the first 21 entries may be used as parameter / result types
 
 func c19Abbrev(d []string) string {
 	if len(d) <= 12 {
